@@ -240,6 +240,15 @@ func init() {
 						if e3 != nil || len(merged) != 1 || merged[0] != id {
 							c.Violation("C09:merging-all-descendants-does-not-return-the-id", d)
 						}
+						// the complete set with one entry listed twice is still the complete set
+						if len(fine) <= 64 {
+							rep := append(append([]string{fine[len(fine)/2]}, fine...), fine[0])
+							m2, e4 := integrate.MergeExtendedSpatialIds(rep, h, v)
+							if e4 != nil || len(m2) != 1 || m2[0] != id {
+								d["merged_with_repeated_entry"] = head(m2, 10)
+								c.Violation("C09:merging-all-descendants-with-a-repeated-entry-does-not-return-the-id", d)
+							}
+						}
 					}},
 			}
 		},
